@@ -200,6 +200,14 @@ class World:
                 continue
             if any(v == x[1] for x in variants):
                 continue
+            # margin: distinct splice sites of one locus are identical or at least site_gap (30 bp) apart
+            sites = set()
+            for _k, ex_ in variants:
+                for a_, b_ in ex_:
+                    sites.add(a_)
+                    sites.add(b_)
+            if any(0 < abs(x_ - y_) < 30 for a_, b_ in v for x_ in (a_, b_) for y_ in sites):
+                continue
             variants.append((op, v))
         for k, (kind, ex) in enumerate(variants):
             g.transcripts.append(Transcript("%s.t%d" % (gid, k + 1), gid, chrom, strand, ex, True, kind))
